@@ -249,7 +249,8 @@ def cut_loop(ex, state, st, kind, spec, ordinal):
             state.frame.locals[n] = ex.reg.fresh(ex, state, typ, n)
         elif cur is not None:
             state.frame.locals[n] = calls.fresh_like(ex, state, cur, n)
-    for path in sorted(attrs | subs | set(spec.get("modifies", []))):
+    preserved = set(spec.get("preserves", []))
+    for path in sorted((attrs | subs | set(spec.get("modifies", []))) - preserved):
         parts = path.split(".")
         if parts[0] in ex.reg.shapes and len(parts) == 2 and parts[0] not in state.frame.locals:
             calls.havoc_sym_field(ex, state, parts[0], parts[1])
@@ -315,6 +316,7 @@ def cut_loop(ex, state, st, kind, spec, ordinal):
             exit_state.assume(i >= ex.length(exit_state, v).t)
         outs_exit = []
     # body
+    body_entry = body_state.copy() if preserved else None
     res = ex.exec_block(body_state, st.body)
     exits = [exit_state] if not exit_state.dead() else []
     for o in res:
@@ -323,6 +325,8 @@ def cut_loop(ex, state, st, kind, spec, ordinal):
             if kind == "for":
                 s.frame.locals[idx_name] = VInt(simp(s.frame.locals[idx_name].t + 1))
             check(s, "preserved")
+            for path in sorted(preserved):
+                _check_preserved(ex, s, body_entry, path, ordinal)
         elif o.kind == "break":
             exits.append(o.state)
         else:
@@ -333,6 +337,32 @@ def cut_loop(ex, state, st, kind, spec, ordinal):
     if m is not None:
         outs.append(Outcome("normal", m))
     return outs + outs_exit
+
+
+def _check_preserved(ex, s, entry, path, ordinal):
+    """`preserves` paths are syntactically written somewhere in the body but claimed unchanged by every iteration:
+    they are not havocked, and this obligation checks the claim"""
+    parts = path.split(".")
+    def resolve(st):
+        v = st.frame.locals.get(parts[0])
+        f = st.frame.closure
+        while v is None and f is not None:
+            v = f.locals.get(parts[0])
+            f = f.closure
+        for p_ in parts[1:]:
+            v = ex.getattr_(st, v, p_)
+        return v
+    a, b = resolve(entry), resolve(s)
+    goal = ex.eq_frame(s, a, b)
+    conj_ = [goal]
+    for (g1, x), (g2, y) in zip(alts_of(a), alts_of(b)):
+        if isinstance(x, VRef) and isinstance(y, VRef) and x.oid == y.oid:
+            oa, ob = entry.heap.get(x.oid), s.heap.get(y.oid)
+            if oa is not None and ob is not None and oa.sym is not None and ob.sym is not None:
+                k = z3.Const(fresh_name("pk"), oa.sym["has"].sort().domain())
+                conj_.append(z3.And(z3.Select(oa.sym["has"], k) == z3.Select(ob.sym["has"], k),
+                                    z3.Select(oa.sym["val"], k) == z3.Select(ob.sym["val"], k)))
+    ex.oblige("loop-preserves", s, z3.And(*conj_), label="loop%d.%s" % (ordinal, path))
 
 
 def _spec_env(ex, s):
